@@ -31,6 +31,8 @@ CONSTANTS
                \* "history": every history of up to MaxCalls select()/parse() calls on ONE exporter object
                \* "chain"  : every sequence of MaxChain exports of ONE parsed environment through (different) back-ends
   Shapes,      \* set of shapes (sequences of extents) explored in family "types"
+  LongShapes,  \* long one-dimensional arrays (one value pattern, default attributes)
+  AltCalls,    \* family "history": besides every history of MaxCalls calls, the alternating ones select; parse; select; parse ... of AltCalls calls
   ModShapes,   \* shapes on which the way the value was given (defined once / modified later / declared then assigned) is varied
   SecShapes,   \* shapes on which the secondary attributes (path, keyword form, unit, tags, constant) are varied
   ArrStarts,   \* start positions of the value pattern used for arrays (scalars use every position)
@@ -102,7 +104,12 @@ StrPool == <<
   [txt |-> "true",          len |-> 4,  blank |-> FALSE],
   [txt |-> "42",            len |-> 2,  blank |-> FALSE],
   [txt |-> "x_y-z.w",       len |-> 7,  blank |-> FALSE],
-  [txt |-> "Hello World 2", len |-> 13, blank |-> TRUE ] >>
+  [txt |-> "Hello World 2", len |-> 13, blank |-> TRUE ],
+  \* long values: hyphenated words / double blanks every few characters, so that any re-formatting of a long line shows
+  [txt |-> "visc-alpha beta-gamma rho-max k-eps x-y delta-t cfl-limit re-start ab-cd out-dir visc-alpha beta-gamma rho-max k-eps x-y delta-t cfl-limit re-start",
+   len |-> 147, blank |-> TRUE ],
+  [txt |-> "visc-alpha  k-eps  cfl-limit  out-dir  rho-max  delta-t  ab-cd  beta-gamma  x-y  re-start  visc-alpha  k-eps  cfl-limit  out-dir  rho-max  delta-t  ab-cd  beta-gamma  x-y  re-start  visc-alpha  k-eps  cfl-limit  out-dir  rho-max  delta-t  ab-cd  beta-gamma  x-y  re-start",
+   len |-> 271, blank |-> TRUE ] >>
 
 ASSUME \A i \in 1..Len(StrPool) : Len(StrPool[i].txt) = StrPool[i].len
 
@@ -155,8 +162,8 @@ SumTo(f, n) == IF n = 0 THEN 0 ELSE f[n] + SumTo(f, n - 1)
 Unflat(shape, k) == [d \in 1..Rank(shape) |-> ((k - 1) \div RowStride(shape, d)) % shape[d]]
 RowPos(shape, idx) == 1 + SumTo([d \in 1..Rank(shape) |-> idx[d] * RowStride(shape, d)], Rank(shape))
 ColPos(shape, idx) == 1 + SumTo([d \in 1..Rank(shape) |-> idx[d] * ColStride(shape, d)], Rank(shape))
-MaxExtent == 3
-IndexSet(shape) == { idx \in [1..Rank(shape) -> 0..(MaxExtent - 1)] : \A d \in 1..Rank(shape) : idx[d] < shape[d] }
+MaxExtent(shape) == IF Rank(shape) = 0 THEN 1 ELSE CHOOSE n \in {shape[d] : d \in 1..Rank(shape)} : \A d \in 1..Rank(shape) : shape[d] <= n
+IndexSet(shape) == { idx \in [1..Rank(shape) -> 0..(MaxExtent(shape) - 1)] : \A d \in 1..Rank(shape) : idx[d] < shape[d] }
 
 \* value pattern: element k is the (start + step*(k-1))-th fitting pool value, cyclically
 Elems(tv, shape, start, step) ==
@@ -168,7 +175,10 @@ Elems(tv, shape, start, step) ==
 (* segment vocabulary is a table.                                          *)
 
 Upper == [a |-> "A", A |-> "A", grp |-> "GRP", b |-> "B", c |-> "C", sub |-> "SUB", d |-> "D",
-          grp_b |-> "GRP_B", v |-> "V", Size2 |-> "SIZE2", zz |-> "ZZ", s |-> "S"]
+          grp_b |-> "GRP_B", v |-> "V", Size2 |-> "SIZE2", zz |-> "ZZ", s |-> "S",
+          box |-> "BOX", grid |-> "GRID", n |-> "N", m |-> "M",
+          a_long_parameter_name_of_forty_characters |-> "A_LONG_PARAMETER_NAME_OF_FORTY_CHARACTERS"]
+LongName == <<"a_long_parameter_name_of_forty_characters">>
 
 RECURSIVE Join(_, _)
 Join(segs, sep) == IF Len(segs) = 0 THEN "" ELSE IF Len(segs) = 1 THEN segs[1]
@@ -210,7 +220,7 @@ TvOf(p) == TV(p.ty, p.width, p.uns)
 TypeParamOK(tv, shape, start, step, path, form, unit, tags, const, mode) ==
   /\ start <= Len(FitSeq(tv))
   /\ (Rank(shape) = 0) => step = 1
-  /\ (Rank(shape) > 0) => start \in ArrStarts /\ step \in Steps
+  /\ (Rank(shape) > 0 /\ shape \notin LongShapes) => start \in ArrStarts /\ step \in Steps
   /\ (form = "long") => HasDefaultWidth(tv)
   /\ (unit # "") => tv.ty \in {"int", "float"}
   /\ (const) => tags = {"t1"}
@@ -219,6 +229,7 @@ TypeParamOK(tv, shape, start, step, path, form, unit, tags, const, mode) ==
      /\ nsec <= 1                                   \* one secondary attribute at a time
      /\ nsec = 1 => (start = 1 /\ step = 1 /\ shape \in SecShapes)
      /\ mode # "once" => (nsec = 0 /\ shape \in ModShapes)      \* a constant node cannot be modified
+     /\ shape \in LongShapes => (nsec = 0 /\ mode = "once" /\ start = 1 /\ step = 1)
 
 \* family "select": a fixed pool of harmless parameters with different paths and tags
 SelPool == <<
@@ -371,8 +382,8 @@ Init == /\ stage = "env" /\ env = <<>> /\ pick = 0 /\ query = <<>> /\ tsel = {} 
 \* --- build the environment
 AddTypeParam ==
   /\ Family = "types" /\ stage = "env" /\ env = <<>>
-  /\ \E tv \in TypeVariants, shape \in Shapes, start \in 1..16, step \in Steps \cup {1},
-        path \in {<<"a">>, <<"grp", "b">>}, form \in {"short", "long"}, unit \in {"", "cm"},
+  /\ \E tv \in TypeVariants, shape \in Shapes \cup LongShapes, start \in 1..16, step \in Steps \cup {1},
+        path \in {<<"a">>, <<"grp", "b">>, LongName}, form \in {"short", "long"}, unit \in {"", "cm"},
         tags \in {{}, {"t1"}}, const \in BOOLEAN, mode \in {"once", "modified", "declared"} :
        /\ TypeParamOK(tv, shape, start, step, path, form, unit, tags, const, mode)
        /\ env' = <<GivenAs(Param(path, tv, form, shape, Elems(tv, shape, start, step), unit, tags, const), mode,
@@ -518,7 +529,12 @@ Record ==
 (* history matters.  Every parse of a history carries its own expected     *)
 (* reader observation.                                                     *)
 
-HistEnv == <<SelPool[1], SelPool[2], SelPool[3], SelPool[4]>>
+\* box.* and grid.* give the same relative names (n, m) to parameters of different type, width, sign and shape
+HistEnv == <<SelPool[1], SelPool[2], SelPool[3], SelPool[4],
+  Param(<<"box", "n">>,  TV("float", 32, FALSE), "short", <<>>,  <<2>>,     "cm", {}, FALSE),
+  Param(<<"box", "m">>,  TV("int", 16, FALSE),   "short", <<>>,  <<3>>,     "",   {}, FALSE),
+  Param(<<"grid", "n">>, TV("int", 64, TRUE),    "short", <<2>>, <<4, 13>>, "",   {}, FALSE),
+  Param(<<"grid", "m">>, TV("str", 0, FALSE),    "short", <<>>,  <<1>>,     "",   {}, FALSE) >>
 
 StartHistory ==
   /\ Family = "history" /\ stage = "env"
@@ -544,15 +560,23 @@ ParseCall(cs) ==
   [ op |-> "parse", class |-> Class, feat |-> RecFeat, hfeat |-> HistFeat(cs, opt),
     query |-> Dotted(query), tags |-> tsel, opt |-> opt, expect |-> Expect, unselected |-> Unselected ]
 
+Alternating(cs) == \A i \in 1..Len(cs) : cs[i].op = (IF i % 2 = 1 THEN "select" ELSE "parse")
+\* a call may be appended: any call inside MaxCalls, beyond that only along select; parse; select; parse ...
+MayCall(op, last) ==
+  \/ Len(calls) < MaxCalls - last
+  \/ Len(calls) < AltCalls - last /\ Alternating(calls) /\ op = (IF Len(calls) % 2 = 0 THEN "select" ELSE "parse")
+Complete == \/ Len(calls) = MaxCalls
+            \/ Len(calls) > MaxCalls /\ Len(calls) = AltCalls
+
 HSelect ==
-  /\ stage = "hist" /\ Len(calls) < MaxCalls - 1          \* a history ends with a parse
+  /\ stage = "hist" /\ MayCall("select", 1)                \* a history ends with a parse
   /\ \E s \in HistSelects :
        /\ query' = s[1] /\ tsel' = s[2]
        /\ calls' = Append(calls, [op |-> "select", query |-> Dotted(s[1]), tags |-> s[2]])
   /\ UNCHANGED <<stage, env, pick, be, opt>>
 
 HParse ==
-  /\ stage = "hist" /\ Len(calls) < MaxCalls
+  /\ stage = "hist" /\ MayCall("parse", 0)
   /\ \E o \in Options(be) : OptionOK(be, o) /\ opt' = o
   /\ UNCHANGED <<stage, env, pick, query, tsel, be>>
   /\ \E cs \in {calls} : calls' = Append(cs, ParseCall(cs)')      \* the expectation is evaluated in the state after the call
@@ -622,7 +646,7 @@ Lemmas ==
        /\ PrintT(ToJson(Record))
   /\ (stage = "hist" /\ Len(calls) > 0 /\ calls[Len(calls)].op = "parse") =>
        /\ LemmaEnv /\ LemmaNames /\ LemmaShapes /\ LemmaSelection /\ LemmaHistory
-       /\ (Len(calls) = MaxCalls) => PrintT(ToJson(HistoryRecord))
+       /\ Complete => PrintT(ToJson(HistoryRecord))
   /\ (stage = "chain" /\ Len(calls) > 0) =>
        /\ LemmaEnv /\ LemmaNames /\ LemmaShapes /\ LemmaSelection /\ LemmaChain
        /\ (Len(calls) = MaxChain) => PrintT(ToJson(ChainRecord))
